@@ -1,6 +1,6 @@
 (* Proofs for C17 (PING answered; nick collisions retried) about Model/PingNick.v. *)
 From Coq Require Import Lia ZifyBool ZifyN ZifyNat.
-Require Import Bytes Names PingNick PingNickSpec.
+Require Import Bytes AMap Names PingNick PingNickSpec.
 
 (* ---- small facts ---------------------------------------------------------- *)
 
@@ -178,6 +178,8 @@ Proof.
   { eexists _, _. split; [reflexivity|]. split; reflexivity. }
   destruct (streqb (e_cmd e) s_NICK && pc_tracking cfg).
   { eexists _, _. split; [reflexivity|]. split; reflexivity. }
+  destruct (streqb (e_cmd e) s_005 && pc_tracking cfg).
+  { eexists _, _. split; [reflexivity|]. split; reflexivity. }
   eexists _, _. split; [reflexivity|]. split; reflexivity.
 Qed.
 
@@ -298,9 +300,44 @@ Proof. vm_compute. repeat split; reflexivity. Qed.
 Example ex_callback :
   let cfg := mkPnCfg (bs "me") true (Some (fun cur => cur ++ bs "-2")) in
   nick_collision cfg pn_init [bs "*"; bs "me"; bs "in use"] = Ok [cmd_nick (bs "me-2")] /\
-  nick_collision cfg (bs "Guest1") [bs "Guest1"; bs "x"; bs "in use"] = Ok [cmd_nick (bs "Guest1-2")] /\
+  nick_collision cfg (mkPnState (bs "Guest1") [(bs "NICKLEN", bs "5")]) [bs "Guest1"; bs "x"; bs "in use"] = Ok [cmd_nick (bs "Guest1-2")] /\
   nick_collision (mkPnCfg (bs "me") true (Some (fun _ => []))) pn_init [bs "*"; bs "me"] = Ok [].
 Proof. vm_compute. repeat split; reflexivity. Qed.
+
+(* ---- Commands.Nick and the advertised nickname length -------------------------------- *)
+
+(* whatever the server announced in 005 (NICKLEN, MAXNICKLEN, anything): the NICK that
+   Commands.Nick hands to Client.Send carries the requested name unchanged *)
+Lemma commands_nick_verbatim : forall st name, commands_nick st name = cmd_nick name.
+Proof. reflexivity. Qed.
+
+(* 005 only touches the options *)
+Lemma step_isupport_keeps_nick : forall cfg st src params st' outs,
+  pn_step cfg st (mkEvent s_005 src params) = Ok (st', outs) -> ps_nick st' = ps_nick st /\ outs = [].
+Proof.
+  intros cfg st src params st' outs H. unfold pn_step in H. cbn [e_cmd e_params e_src] in H.
+  change (streqb s_005 s_PING) with false in H. change (is_collision_cmd s_005) with false in H.
+  change (streqb s_005 s_001) with false in H. change (streqb s_005 s_NICK) with false in H.
+  change (streqb s_005 s_005) with true in H. cbn [andb] in H.
+  destruct (pc_tracking cfg); inversion H; subst; [|split; reflexivity].
+  unfold handle_isupport.
+  destruct (negb (suffixb s_this_server (last_param params))); [split; reflexivity|].
+  destruct (Nat.ltb (length params) 2); split; reflexivity.
+Qed.
+
+(* the sequence of the seeded regression C17-4: registered, NICKLEN=9 announced, the
+   application asks for a 9-byte nickname, which is refused three times *)
+Definition ex_isupport : pn_event :=
+  mkEvent s_005 (Some (bs "irc.test")) [bs "me"; bs "NICKLEN=9"; bs "MAXNICKLEN=9"; bs "are supported by this server"].
+
+Example ex_session_nicklen :
+  session ex_cfg pn_init (bs "me")
+    [IEvent (mkEvent s_001 None [bs "me"; bs "Welcome"]); IEvent ex_isupport; IUser (bs "abcdefghi");
+     ICollide ex_shell; ICollide ex_shell; ICollide ex_shell] =
+    Ok [[]; []; [cmd_nick (bs "abcdefghi")]; [cmd_nick (bs "abcdefghi_")]; [cmd_nick (bs "abcdefghi__")];
+        [cmd_nick (bs "abcdefghi___")]] /\
+  alookup (bs "NICKLEN") (ps_opts (handle_isupport pn_init (e_params ex_isupport))) = Some (bs "9").
+Proof. vm_compute. split; reflexivity. Qed.
 
 (* ---- the two sequences the unrepaired handler got wrong ------------------------- *)
 
@@ -313,7 +350,7 @@ Proof. vm_compute. reflexivity. Qed.
 (* non-ASCII nicknames: current nickname "\xc3\xbc", the application asks for "\xc3\xa9" *)
 Example collision_non_ascii :
   nick_like [195; 169] = true /\
-  session (mkPnCfg (bs "me") true None) [195; 188] [195; 169] [ICollide ex_shell; ICollide ex_shell] =
+  session (mkPnCfg (bs "me") true None) (mkPnState [195; 188] []) [195; 169] [ICollide ex_shell; ICollide ex_shell] =
     Ok [[cmd_nick [195; 169; 95]]; [cmd_nick [195; 169; 95; 95]]].
 Proof. vm_compute. split; reflexivity. Qed.
 
